@@ -490,8 +490,8 @@ fn main() {
     ck.assume("explicit vocabularies are injective and contain all 256 byte symbols and every merge product; added-token ids do not collide with other ids");
 
     ck.set_threads(8);
-    ck.prop("gpt2", ck.pick(30_000, 2_000_000), gcase, goracle);
+    ck.prop("gpt2", ck.pick(30_000, 400_000), gcase, goracle);
     ck.set_threads(16);
-    ck.prop("trained", ck.pick(80_000, 5_000_000), tcase, toracle);
+    ck.prop("trained", ck.pick(80_000, 1_200_000), tcase, toracle);
     ck.finish();
 }
